@@ -681,6 +681,11 @@ func main() {
 		for k, c := range loc.c {
 			run.Count(k, c)
 		}
+		if os.Getenv("C10_DEBUG") != "" && ci%100 == 0 {
+			var ms runtime.MemStats
+			runtime.ReadMemStats(&ms)
+			fmt.Printf("MEM chunk=%d heapAlloc=%dMB heapInuse=%dMB heapIdle=%dMB released=%dMB nextGC=%dMB heapObjects=%d sys=%dMB stacks=%dMB goroutines=%d numGC=%d\n", ci, ms.HeapAlloc>>20, ms.HeapInuse>>20, ms.HeapIdle>>20, ms.HeapReleased>>20, ms.NextGC>>20, ms.HeapObjects, ms.Sys>>20, ms.StackSys>>20, runtime.NumGoroutine(), ms.NumGC)
+		}
 		opsMtx.Lock()
 		for i, c := range loc.ops {
 			opsTotal[i] += c
